@@ -89,6 +89,7 @@ def run(chk):
     )
     chk.not_decided = "that a payload's size equals what its write() produces for file / iterable payloads; under-run of a declared length by the application."
     chk.explanation += " Also decided: every write_with_length implementation truncates to the remaining declared length; body data reaches the payload writer only when the response may have a body (HEAD/1xx/204/304 get none). After the defect hunt: the stream compressor is not enabled on body-less responses; TextIOPayload declares a size only under the codec it writes with."
+    chk.explanation += " Round 4 / second hunt: write_eof() obeys the declared length and counts bytes like write(); a handler-supplied Transfer-Encoding: chunked selects chunked framing; a reported size of 0 is not `unknown`; multipart size/write act on the encodings recorded at append time."
     mod = repo.module(HW)
     ser = repo.func(HW, "_py_serialize_headers")
     n = sanitise_block(chk, repo, folder, ser, "C04.san.block", "HTTP header block")
